@@ -114,7 +114,7 @@ func Serialize(ns []*UNode, repair bool) []byte {
 // containers whose child list may be edited without touching a count field
 var editable = map[string]bool{"moov": true, "trak": true, "mdia": true, "minf": true, "stbl": true, "dinf": true, "edts": true,
 	"mvex": true, "moof": true, "traf": true, "mfra": true, "udta": true, "sinf": true, "schi": true,
-	"avc1": true, "avc3": true, "hvc1": true, "hev1": true, "encv": true, "mp4a": true, "enca": true}
+	"avc1": true, "avc3": true, "hvc1": true, "hev1": true, "encv": true, "mp4a": true, "enca": true, "ac-3": true, "ec-3": true}
 
 type level struct {
 	list  *[]*UNode
@@ -147,8 +147,18 @@ func ForeignUnit(t *sim.Tape, rnd *sim.Rand) *UNode {
 	n := t.Draw(48)
 	pl := make([]byte, n)
 	rnd.Fill(pl)
-	typ := []string{"free", "skip", "zzzz", "uuid", "emsg", "prft", "abcd"}[t.Draw(7)]
+	typ := []string{"free", "skip", "zzzz", "uuid", "emsg", "prft", "abcd", "meta", "btrt"}[t.Draw(9)]
 	switch typ {
+	case "btrt":
+		pl = cat(be32(uint32(t.Draw(1<<20))), be32(uint32(t.Draw(1<<24))), be32(uint32(t.Draw(1<<24))))
+	case "meta":
+		// a meta box holding a handler box; QuickTime style (no version/flags word) or ISO style (FullBox)
+		hd := fullbox("hdlr", 0, 0, cat(be32(0), []byte("mdir"), make([]byte, 12), []byte("vsim\x00")))
+		if t.Bool() {
+			pl = hd
+		} else {
+			pl = append([]byte{0, 0, 0, 0}, hd...)
+		}
 	case "uuid":
 		u := []byte{0x6d, 0x1d, 0x9b, 0x05, 0x42, 0xd5, 0x44, 0xe6, 0x80, 0xe2, 0x14, 0x1d, 0xaf, 0xf7, 0x57, 0xb2} // tfxd
 		if t.Bool() {
